@@ -23,12 +23,35 @@ build() { # build <out> [extra go build args...]
   (cd "$H" && go build "${OV[@]}" "$@" -o "$out" ./cmd/vcheck) || { echo "check.sh: build failed" >&2; return 2; }
 }
 
+# C19 needs three binaries: plain, instrumented (overlay generated from the working
+# tree by vinstr, tag verifsched) and -race. A failing instrumented build is not a
+# failure of the check: it falls back to the footprint and race passes and says so.
+C19_PKGS="bitmap bmtree bitstr bitword sigbits"
+c19_builds() {
+  local d=$1
+  (cd "$H" && go build -o "$d/vinstr" ./cmd/vinstr) || { echo "check.sh: vinstr build failed" >&2; exit 2; }
+  local base=()
+  if [ -n "${VERIF_OVERLAY:-}" ]; then base=(-base "$VERIF_OVERLAY"); fi
+  mkdir -p "$d/ov"
+  if "$d/vinstr" -repo /repo -out "$d/ov" -rt "$H/schedrt/sched.go" "${base[@]}" $C19_PKGS >"$d/vinstr.log" 2>&1 \
+     && (cd "$H" && go build -overlay "$d/ov/overlay.json" -tags verifsched -o "$d/vcheck.sched" ./cmd/vcheck) >"$d/sched-build.log" 2>&1; then
+    export VERIF_SCHED_BIN="$d/vcheck.sched"
+  else
+    export VERIF_SCHED_ERR="$(tail -c 300 "$d/vinstr.log" "$d/sched-build.log" 2>/dev/null | tr '\n' ' ')"
+    echo "check.sh: instrumented build unavailable, falling back to footprint + race passes" >&2
+  fi
+  if build "$d/vcheck.race" -race 2>"$d/race-build.log"; then
+    export VERIF_RACE_BIN="$d/vcheck.race"
+  fi
+}
+
 cmd=${1:-}
 case "$cmd" in
   setup)
     build "$WORK/vcheck.setup" || exit 2
     build "$WORK/vcheck.setup.debug" -tags debug || exit 2
-    rm -f "$WORK"/vcheck.setup*
+    mkdir -p "$WORK/setup.c19"; c19_builds "$WORK/setup.c19"
+    rm -rf "$WORK"/vcheck.setup* "$WORK/setup.c19"
     exit 0 ;;
   replay)
     bin="$WORK/vcheck.replay.$$"
@@ -37,8 +60,11 @@ case "$cmd" in
       build "$bin.debug" -tags debug || exit 2
       export VERIF_DEBUG_BIN="$bin.debug"
     fi
+    if grep -q '"property": "C19"' "$2" 2>/dev/null; then
+      mkdir -p "$bin.d"; c19_builds "$bin.d"
+    fi
     "$bin" -replay "$2"; rc=$?
-    rm -f "$bin" "$bin.debug"; exit $rc ;;
+    rm -rf "$bin" "$bin.debug" "$bin.d"; exit $rc ;;
   "") echo "usage: check.sh <id> [quick|thorough] | replay <file> | setup" >&2; exit 2 ;;
 esac
 
@@ -49,6 +75,8 @@ mkdir -p "$D"
 trap 'rm -rf "$D"' EXIT
 build "$D/vcheck" || exit 2
 case "$id" in
+  C19)
+    c19_builds "$D" ;;
   C03)
     # second configuration: the same harness with the openacid/must contracts compiled in
     build "$D/vcheck.debug" -tags debug || exit 2
